@@ -5,7 +5,8 @@ CONSTANTS
   Caps = {}
   MaxItems = 0
   Cons = {1, 2, 3, 4}
-INVARIANTS TypeOK WTypeOK Conservation LanesSorted ClearedIsFinal NoStranded NothingLeftBeside
+  Prods = {1, 2, 3}
+INVARIANTS TypeOK WTypeOK Conservation LanesSorted ClearedIsFinal NoStranded NoStrandedProducer NothingLeftBeside
 CONSTRAINT Mark
 POSTCONDITION Accepted
 CHECK_DEADLOCK FALSE
